@@ -155,7 +155,7 @@ def sample_prefix(rng, cfg, max_len=4, p_any=0.35, allow_path=True, allow_mutate
         if k in ("fit", "crash_fit", "score", "predict", "bad_fit", "mutate_data", "path", "crash_path", "nan_path"):
             op["data"] = rng.randrange(2)
         if k in ("crash_fit", "crash_path"):
-            op["crash"] = {"seam": weighted(rng, [("opt", 3), ("gemini", 2)]), "at": rng.randint(1, 6)}
+            op["crash"] = sample_crash(rng, k == "crash_path", [("opt", 3), ("gemini", 2), ("line", 3)])
         if k == "nan_path":
             op["nan_at"] = rng.randint(1, 40)
         if k in ("path", "crash_path", "nan_path"):
@@ -169,6 +169,25 @@ def sample_prefix(rng, cfg, max_len=4, p_any=0.35, allow_path=True, allow_mutate
             op["how"] = choice(rng, ["scale", "shift", "reverse_rows"])
         ops.append(op)
     return ops
+
+
+def sample_crash(rng, is_path, seams):
+    """Where an interrupted call dies: at the k-th optimiser step / GEMINI evaluation / kernel call, or - seam "line" - when
+    the k-th source line of the library is about to run (k log-uniform: early validation code up to deep inside training)."""
+    seam = weighted(rng, seams)
+    if seam == "line":
+        return {"seam": "line", "at": int(math.exp(rng.uniform(0.0, math.log(40000 if is_path else 4000))))}
+    return {"seam": seam, "at": rng.randint(1, 6)}
+
+
+def crash_context(op, log, res):
+    """Context manager of the op's line-level crash (a null context for the other seams)."""
+    import contextlib
+    c = op.get("crash")
+    if c and c.get("seam") == "line":
+        from ..seams import LineCrash
+        return LineCrash(c["at"], log, res)
+    return contextlib.nullcontext()
 
 
 def second_dataset(cfg, rng_seed_offset=1):
@@ -199,14 +218,16 @@ def run_generic_op(op, model, world, pool, cur_cfg, res, log):
             c = op["crash"]
             if c["seam"] == "opt":
                 world.opt_raise_at = c["at"]
-            else:
+            elif c["seam"] == "gemini":
                 world.gemini_fault = {"kind": "raise", "at": c["at"]}
         if kind == "nan_path":
             world.gemini_fault = {"kind": "nan", "at": op["nan_at"]}
         if kind in ("fit", "crash_fit"):
-            model.fit(X, A)
+            with crash_context(op, log, res):
+                model.fit(X, A)
         elif kind in ("path", "crash_path", "nan_path"):
-            model.path(X, A, **op.get("args", {}))
+            with crash_context(op, log, res):
+                model.path(X, A, **op.get("args", {}))
         elif kind == "score":
             model.score(X, A)
         elif kind == "predict":
